@@ -54,6 +54,11 @@ func init() {
 				return len(types) * 2 * 3 * 2
 			},
 			Run: c01Case,
+		}, {
+			// one case per feature type: every function x five odd filter forms x four request kinds (c01_filter.go)
+			Name:  "odd-filter",
+			Cases: func(t rig.Tier) int { return len(types) * map[rig.Tier]int{rig.Quick: 1, rig.Thorough: 6}[t] },
+			Run:   c01OddFilter,
 		}},
 	})
 }
